@@ -27,6 +27,16 @@ Check C02_total_checked : forall (p : prog) (ce : cert) (sigs : list fsig) (entr
   forall txt : text, exists fuel t errs st, parse_with fuel p entry txt = ParseOk t errs st.
 Print Assumptions C02_total_checked.
 
+(** Capstone (C01 + C02 together): on EVERY text the parser model returns a tree and an error list; the tree is
+    lossless, every error is well-formed, the work is linear in the number of raw tokens. *)
+Theorem C02_parse_spec : forall txt : text, exists fuel t errs st,
+  parse_with fuel grammar_prog grammar_entry txt = ParseOk t errs st /\
+  lossless txt t /\
+  Forall (error_wf txt) errs /\
+  N.to_nat (nlex st) + N.to_nat (nstart st) <= grammar_K * (List.length (raw_lex txt) + 1).
+Proof. exact grammar_parse_spec. Qed.
+Print Assumptions C02_parse_spec.
+
 (** Termination (A-prog): for the grammar regenerated from the current sources, on EVERY text, the parser does not run
     out of fuel for some fuel -- every loop iteration consumes a token or exits, there is no left recursion.
     Proof: certificate check [chk_all] (vm_compute on gen/GenGrammar.v + gen/GenGrammarCert.v) + its soundness
